@@ -88,13 +88,17 @@ func genC15(r *rand.Rand, t *Trace, thorough bool) {
 			ivf, _ := comet.NewIVFIndex(dim, nlist, metrics[mz])
 			pq, _ := comet.NewPQIndex(dim, metrics[mz], 8, 8)
 			ivfpq, _ := comet.NewIVFPQIndex(dim, metrics[mz], nlist, 8, 8)
-			ivf.Train(trainNodes())
-			pq.Train(trainNodes())
-			ivfpq.Train(trainNodes())
-			for _, ix := range []comet.VectorIndex{hn, ivf, pq, ivfpq} {
-				for i, v := range data {
-					ix.Add(*comet.NewVectorNodeWithID(uint32(i+1), cloneVec(v)))
+			// the nodes an index was trained on are then added to it -- the SAME node values (train, then
+			// add what you trained on), so that anything training or adding does to its arguments shows
+			for _, ix := range []comet.VectorIndex{ivf, pq, ivfpq} {
+				ns := trainNodes()
+				ix.Train(ns)
+				for i := range ns {
+					ix.Add(ns[i])
 				}
+			}
+			for i, v := range data {
+				hn.Add(*comet.NewVectorNodeWithID(uint32(i+1), cloneVec(v)))
 			}
 			cands := []cand{
 				{"hnsw", hn, 0, 0.9, 0, false},
